@@ -62,6 +62,36 @@ type Result struct {
 	// the `return !found` an inlined helper leaves behind — the constant returned along each way the block was
 	// entered (nil entry: not a constant / entry edge unknown).
 	RetVals map[*ssa.Return][]constant.Value
+	// RetEdges: for a reached Return whose first result (through a defer spill) is a phi of its own block, the phi
+	// operand for each way the block was entered (nil: entry edge unknown).
+	RetEdges map[*ssa.Return][]ssa.Value
+}
+
+// PhiResult returns the phi a Return's first result is, when the phi lives in the Return's block.
+func PhiResult(ret *ssa.Return) *ssa.Phi {
+	if len(ret.Results) == 0 {
+		return nil
+	}
+	if ph, ok := RetVal(ret, 0).(*ssa.Phi); ok && ph.Block() == ret.Block() {
+		return ph
+	}
+	return nil
+}
+
+// NilReturnReached: the return was reached, over some explored path, with a nil first result.
+func (r Result) NilReturnReached(ret *ssa.Return) bool {
+	if !r.Reached[ret] {
+		return false
+	}
+	if ReturnsNil(ret, 0) {
+		return true
+	}
+	for _, e := range r.RetEdges[ret] {
+		if e == nil || IsNilConst(e) {
+			return true
+		}
+	}
+	return false
 }
 
 // BoolReturn: the boolean constants a reached return can yield on the explored paths; ok=false if some path
@@ -319,7 +349,7 @@ func threadedSucc(b, from *ssa.BasicBlock) int {
 
 // Reach computes the instructions reachable from the start points.
 func Reach(starts []Pt, o Opts) Result {
-	res := Result{Reached: map[ssa.Instruction]bool{}, Stopped: map[ssa.Instruction]bool{}, RetVals: map[*ssa.Return][]constant.Value{}}
+	res := Result{Reached: map[ssa.Instruction]bool{}, Stopped: map[ssa.Instruction]bool{}, RetVals: map[*ssa.Return][]constant.Value{}, RetEdges: map[*ssa.Return][]ssa.Value{}}
 	type key struct {
 		b    *ssa.BasicBlock
 		i    int
@@ -336,7 +366,7 @@ func Reach(starts []Pt, o Opts) Result {
 			return
 		}
 		if ifi, _ := condPhi(p.B); ifi == nil || p.I != 0 {
-			if _, _, _, rp := retPhi(p.B); !rp || p.I != 0 {
+			if _, _, _, rp := retPhi(p.B); (!rp && !hasPhiReturn(p.B)) || p.I != 0 {
 				from = nil
 			}
 		}
@@ -372,6 +402,17 @@ func Reach(starts []Pt, o Opts) Result {
 			}
 			res.Reached[in] = true
 			if ret, isRet := in.(*ssa.Return); isRet {
+				if ph := PhiResult(ret); ph != nil {
+					var ev ssa.Value
+					if p.I == 0 && it.from != nil {
+						for k, pr := range b.Preds {
+							if pr == it.from {
+								ev = ph.Edges[k]
+							}
+						}
+					}
+					res.RetEdges[ret] = append(res.RetEdges[ret], ev)
+				}
 				if r2, ph, neg, ok := retPhi(b); ok && r2 == ret {
 					var cv constant.Value
 					if p.I == 0 && it.from != nil {
@@ -630,4 +671,12 @@ func RetVal(ret *ssa.Return, i int) ssa.Value {
 func ReturnsNil(ret *ssa.Return, i int) bool {
 	v := RetVal(ret, i)
 	return v != nil && IsNilConst(v)
+}
+
+func hasPhiReturn(b *ssa.BasicBlock) bool {
+	if len(b.Instrs) == 0 {
+		return false
+	}
+	ret, ok := b.Instrs[len(b.Instrs)-1].(*ssa.Return)
+	return ok && PhiResult(ret) != nil
 }
